@@ -109,13 +109,14 @@ def find_link_image(string, offset, delimiters, matches, root=None):
 
 
 def process_emphasis(string, stack_bottom, delimiters, matches):
-    star_bottom = stack_bottom
-    underscore_bottom = stack_bottom
+    # openers_bottom, indexed by closer kind: (char, can open, original length mod 3).
+    # Holds the delimiter object below which no opener for that kind of closer exists.
+    openers_bottom = {}
     curr_pos = next_closer(stack_bottom, delimiters)
     while curr_pos is not None:
         closer = delimiters[curr_pos]
-        bottom = star_bottom if closer.type[0] == '*' else underscore_bottom
-        open_pos = matching_opener(curr_pos, delimiters, bottom)
+        bottom_key = (closer.type[0], closer.open, closer.orig_number % 3)
+        open_pos = matching_opener(curr_pos, delimiters, stack_bottom, openers_bottom.get(bottom_key))
         if open_pos is not None:
             opener = delimiters[open_pos]
             n = 2 if closer.number >= 2 and opener.number >= 2 else 1
@@ -138,11 +139,8 @@ def process_emphasis(string, stack_bottom, delimiters, matches):
             if curr_pos < 0:
                 curr_pos = 0
         else:
-            bottom = curr_pos - 1 if curr_pos > 1 else None
-            if closer.type[0] == '*':
-                star_bottom = bottom
-            else:
-                underscore_bottom = bottom
+            if curr_pos > (stack_bottom or 0):
+                openers_bottom[bottom_key] = delimiters[curr_pos - 1]
             if not closer.open:
                 delimiters.remove(closer)
             else:
@@ -344,16 +342,16 @@ def next_closer(curr_pos, delimiters):
     return None
 
 
-def matching_opener(curr_pos, delimiters, bottom):
-    if curr_pos > 0:
-        curr_delimiter = delimiters[curr_pos]
-        index = curr_pos - 1
-        for delimiter in delimiters[curr_pos - 1:bottom:-1]:
-            if (hasattr(delimiter, 'open')
-                    and delimiter.open
-                    and delimiter.closed_by(curr_delimiter)):
-                return index
-            index -= 1
+def matching_opener(curr_pos, delimiters, stack_bottom, bottom):
+    curr_delimiter = delimiters[curr_pos]
+    for index in range(curr_pos - 1, (stack_bottom or 0) - 1, -1):
+        delimiter = delimiters[index]
+        if delimiter is bottom:
+            break
+        if (hasattr(delimiter, 'open')
+                and delimiter.open
+                and delimiter.closed_by(curr_delimiter)):
+            return index
     return None
 
 
@@ -424,6 +422,7 @@ class Delimiter:
     def __init__(self, start, end, string):
         self.type = string[start:end]
         self.number = end - start
+        self.orig_number = self.number
         self.active = True
         self.start = start
         self.end = end
@@ -452,8 +451,8 @@ class Delimiter:
             # restrictions apply: the sum of the lengths of the delimiter runs
             # containing the opening and closing delimiters must not be a multiple of 3
             # unless both lengths are multiples of 3.
-            return ((self.number + other.number) % 3 != 0
-                    or (self.number % 3 == 0 and other.number % 3 == 0))
+            return ((self.orig_number + other.orig_number) % 3 != 0
+                    or (self.orig_number % 3 == 0 and other.orig_number % 3 == 0))
         return True
 
     def __repr__(self):
